@@ -640,8 +640,8 @@ class Quaternion(np.ndarray):
         if q.shape[-1] == 3:
             q = np.array([0.0, *q])
         q_norm = np.linalg.norm(q)
-        if q_norm == 0.0:
-            raise ValueError("Quaternion cannot be a zero vector.")
+        if not q_norm > 0:
+            raise ValueError("Quaternion cannot be a zero vector, nor contain NaN values.")
         if versor:
             q /= q_norm
         # Create the ndarray instance of type Quaternion. This will call the
